@@ -157,5 +157,20 @@ package main
 // (observations_under_reported_race_not_reproduced), not reported; a differing result without a detector report
 // becomes C16|oracle=concurrent-result-differs-from-single-threaded-value.
 //
+//	seeded-f-optional-trim-uses-filtered-index  encode.go makeStructWriter: the trim   pass      yes      9   type=struct-optional-skipped|input-class=skipped-field-{before-all,before-optionals,between-optionals}
+//	  (independently seeded, /verif/seeded/C16f)      loop indexes val.Field with the                          |oracle={encoding-differs-from-reference,ignored-field-influences-encoding,reencode-differs}
+//	                                                   position in the filtered list
+//
+// The fourth seeded change listed here was MISSED (quick exit 0). What excluded it: every struct type with rlp:"optional"
+// fields in the check (sOptT, sOpt2T, the generated struct{uint64; E optional; E optional}, the scalar optional host,
+// raceSharedOpt) has its skipped fields, if any, AFTER the optional ones or none at all, so the position in the filtered
+// RLP field list always equalled the Go struct index; the only type with an rlp:"-" and an unexported field (sNestT) has
+// no optional field. Added in response: optskip.go, part (b2): 0..1 required x 1..3 optional uint64 fields with a skipped
+// field of either kind (rlp:"-" / unexported; reflect.StructOf can do both, the unexported ones via PkgPath and are set
+// through unsafe) in every subset of the gaps, a mixed-type family ([]byte, *uint64, string optionals) and six fixed Go
+// types: 231 shapes x every zero/non-zero pattern of all fields incl. the skipped ones = 18 778 cases (< 0.1 s).
+// Oracles: reference encoding of the list of non-skipped fields cut after the last non-zero optional; a skipped field
+// does not influence the bytes; encode by value == by pointer; round trip and re-encoding from the canonical bytes.
+//
 // Dropped as equivalent for the property: removing the ErrElemTooLarge test in Stream.Kind (willRead still
 // refuses the read, only the error kind changes; the repository's own tests notice the error kind).
